@@ -207,7 +207,7 @@ def on_ns(p, r, exc, acc):
 # ------------------------------------------------------------------ every way of reaching a template by URI, from two templates in one render
 API = ["get_namespace", "get_template", "include_file", "include-tag", "namespace-tag", "namespace-import", "namespace-then-relative", "namespace-def-uses-local"]
 SECOND = ["/b/two", "/a/x/two", "/two"]
-FORMS = ["lib", "/lib", "x/lib", "nolib", "/a/lib"]
+FORMS = ["lib", "/lib", "x/lib", "nolib", "/a/lib", ""]
 LIBS = ["/lib", "/a/lib", "/b/lib", "/a/x/lib"]
 
 
